@@ -17,7 +17,9 @@
 //	    is `h.setFields a (delKV (h.fields a) k)`, `ego.val = map[string]field{}` is `h.setFields a []`,
 //	    `ego.val = append(ego.val, v)` is `h.setItems a (h.items a ++ [v])` (arguments evaluated first),
 //	    `x, ok := ego.val[k]` / a type switch over `ego.val[k]` is a `match` on `lookup (h.fields a) k`,
-//	    `len(ego.val)` is `((h.fields a).length : Int)`.
+//	    `len(ego.val)` is `((h.fields a).length : Int)`.  A type switch over the local `x` of
+//	    `x, ok := ego.val[k]`, where the key exists, is a `match` on that stored `Val` with the same
+//	    patterns (where the key does not exist `x` is undefined and the switch is not translated).
 //	R2  identity.  `ego.Ego()` is `h.egoRef a`; the pointer `ego` itself is `⟨a, 0⟩`.  Calls through
 //	    `ego.Ego()` or through an `Object` value dispatch to the library's own method of the cell
 //	    (overriding by an embedding type is not modelled); an `Object` parameter is the address of
@@ -2587,6 +2589,34 @@ func (g *ogen) typeSwitch(st *ast.TypeSwitchStmt, env *oenv, k okont) lnode {
 	return g.expr(ta.X, env, "", func(e *oenv, v ov) lnode {
 		if v.sort == "jval" {
 			return g.treeSwitch(st, e, v, bound, clauses, runDefault, k)
+		}
+		if v.sort == "field" {
+			// (a') the same switch as (a) over a local that holds the field read by `x, ok := ego.val[key]` (the
+			// branch in which the key exists: there the local is the stored field — the patterns of (a) without
+			// `some`; a stored field is never the nil interface, so with all dynamic types listed default is dead)
+			if bound != "" && bound != "_" {
+				failAt(st, "a type switch over a stored field that binds the value is not supported")
+			}
+			out := lMatch{scrut: v.lean}
+			seen := map[string]bool{}
+			for _, c := range clauses {
+				for _, t := range c.List {
+					pat, ok := objFieldPats[goTypeStr(t)]
+					if !ok {
+						failAt(t, "unknown dynamic type of a stored field: %s", goTypeStr(t))
+					}
+					if seen[pat] {
+						failAt(t, "duplicate case %s", goTypeStr(t))
+					}
+					seen[pat] = true
+					inner, leave := scoped(e, k)
+					out.arms = append(out.arms, lArm{pat: pat, body: g.stmts(c.Body, inner, leave)})
+				}
+			}
+			if len(seen) < len(objFieldPats) {
+				out.arms = append(out.arms, lArm{pat: "_", body: runDefault(e.clone())})
+			}
+			return out
 		}
 		if v.sort != "goval" || v.whole == "" {
 			failAt(st, "unsupported type switch over a value of sort %q", v.sort)
